@@ -167,6 +167,7 @@ class Mir:
                         cfn.blocks[cur][0].append(st)
                     j += 1
                 self.const_fns[cname.split("::")[-1]] = cfn
+                self.__dict__.setdefault("const_fns_full", {})[cname] = cfn
                 i = j + 1
                 continue
             m = FN_RE.match(ln) or FN_UNIT_RE.match(ln)
@@ -501,6 +502,17 @@ class Exec:
         for rx, f in self.models:
             if rx.startswith("const:") and re.search(rx[6:], txt):
                 return f(self, txt)
+        mp = re.search(r"promoted\[(\d+)\]$", txt)
+        if mp:
+            # a promoted constant of the function being executed: run its MIR body
+            cfn = getattr(self.mir, "const_fns_full", {}).get("%s::promoted[%s]" % (fn.name, mp.group(1)))
+            if cfn is not None:
+                saved = copy.deepcopy(self.heap)
+                outs = self.run(cfn, [], [], [], 1)
+                self.heap = saved
+                rets = [o for o in outs if o.kind == "return"]
+                if len(rets) == 1:
+                    return rets[0].value
         return OpaqueV("const " + txt)
 
     def read_place(self, p, env, fn):
@@ -650,6 +662,21 @@ class Exec:
                 return IntV(q, ty)
             return IntV("(- %s (* %s %s))" % (a.term, b.term, q), ty) if b.const is not None else IntV(
                 "(- %s (* %s %s))" % (a.term, q, b.term), ty)
+        lo_, hi_ = INT_RANGES[ty]
+        if lo_ == 0 and b.const is not None:
+            # unsigned operand, constant right-hand side: shifts and low-bit masks as arithmetic
+            if op in ("Shl", "ShlUnchecked") and 0 <= b.const < 64:
+                if a.const is not None:
+                    return mk_int((a.const << b.const) % (hi_ + 1), ty)
+                return IntV(wrap("(* %s %d)" % (a.term, 1 << b.const), ty), ty)
+            if op in ("Shr", "ShrUnchecked") and 0 <= b.const < 64:
+                if a.const is not None:
+                    return mk_int(a.const >> b.const, ty)
+                return IntV("(div %s %d)" % (a.term, 1 << b.const), ty)
+            if op == "BitAnd" and b.const >= 0 and (b.const & (b.const + 1)) == 0:
+                if a.const is not None:
+                    return mk_int(a.const & b.const, ty)
+                return IntV("(mod %s %d)" % (a.term, b.const + 1), ty)
         raise EncodingError("unsupported binop %s in %s" % (op, fn.name))
 
     def cast(self, v, ty, fn):
@@ -697,6 +724,10 @@ class Exec:
                     return v.discr
                 if isinstance(v.variant, int):
                     return mk_int(v.variant, "isize")
+                if v.variant in ("None", "Ok", "Continue"):
+                    return mk_int(0, "isize")
+                if v.variant in ("Some", "Err", "Break"):
+                    return mk_int(1, "isize")
             if isinstance(v, LocV):
                 v = self.heap[v.oid][v.k]
             if isinstance(v, OpaqueV) and self.havoc_unknown:
